@@ -1042,7 +1042,9 @@ func (w *c40World) stats() c40Stats {
 			st.Ingested++
 		}
 		if e.Exempt != "" {
-			st.Exempt++
+			if !strings.HasPrefix(e.Exempt, "older than") && !strings.HasPrefix(e.Exempt, "within the age limit only") {
+				st.Exempt++
+			}
 			ex = append(ex, e.Exempt)
 		}
 	}
